@@ -80,6 +80,14 @@ def check_molecule(acc, m, tag, s2z, centre=None, textbook=False):
                 bad('implicit hydrogens differ from the textbook table', atom=centre, got=a.implicit_hydrogens, expected=h)
         else:
             acc.ood['outside textbook domain'] += 1
+        lj = valence.ladder_judge(a.atomic_symbol, a.charge, a.is_radical, nb, a.implicit_hydrogens)
+        if lj is False:
+            bad('valence state outside the main-group ladder model (bond sum + hydrogens is not the lowest ladder state)', atom=centre, got=a.implicit_hydrogens)
+        # explicit hydrogen counts: check_implicit(n, h) is true exactly for the admissible counts
+        adm = valence.admissible_h(a, a.charge, a.is_radical, [(o, z) for o, z in nb if o != 8], s2z)
+        got = {h for h in range(0, 7) if m.check_implicit(centre, h)}
+        if got != {h for h in adm if h < 7}:
+            bad('check_implicit() does not accept exactly the hydrogen counts for which the tables hold a state', atom=centre, got=sorted(got), expected=sorted(adm))
     if invalid:
         acc.ood['formula/mass undefined: an atom has no valence state'] += 1
     else:
@@ -112,6 +120,35 @@ def run_stars(shard):
                     check_molecule(acc, m, tag, s2z, centre=1, textbook=True)
                     acc.outcomes[(ch, rad, m.atom(1).implicit_hydrogens)] += 1
     acc.sample({'centre': sym, 'charges': list(charges), 'radical': [False, True], 'bond types': BTYPES[:4] + ['...'], 'multisets': 'all of size 0..4'})
+    return acc
+
+
+def run_exception_rows(shard):
+    """one star per environment row of the exception tables of the ladder elements (up to 7 neighbours), every hydrogen deficit 0..row H: judged by the ladder model"""
+    from chython import MoleculeContainer
+    from chython.periodictable import Element
+    sym, = shard
+    acc = Acc()
+    s2z = {c.__name__: c.atomic_number.fget(None) for c in Element.__subclasses__()}
+    cls = Element.from_symbol(sym)
+    rows = [r for r in cls()._valences_exceptions if r[3]]
+    for ch, rad, h, env in rows:
+        for extra_h in range(0, h + 1):
+            acc.states += 1
+            acc.transitions += 1
+            combo = list(env) + [(1, 'H')] * extra_h
+            m = MoleculeContainer()
+            m.add_atom(cls(charge=ch, is_radical=rad), 1, _skip_calculation=True)
+            for i, (o, s) in enumerate(combo, 2):
+                m.add_atom(Element.from_symbol(s)(), i, _skip_calculation=True)
+                m.add_bond(1, i, o, _skip_calculation=True)
+            m.fix_structure()
+            tag = 'star %s charge=%d radical=%s bonds=%s' % (sym, ch, rad, combo)
+            check_molecule(acc, m, tag, s2z, centre=1, textbook=True)
+            if m.atom(1).implicit_hydrogens is None:
+                acc.fail('environment listed in the exception table has no valence state', mol=tag)
+            acc.outcomes[(ch, rad, m.atom(1).implicit_hydrogens)] += 1
+    acc.sample({'centre': sym, 'rows': len(rows)})
     return acc
 
 
@@ -176,6 +213,8 @@ def plan(tier, seed):
         allsym = None
         st.append(Stage('stars all elements', run_stars_all, [(z,) for z in range(1, 119)],
                         'all 118 centre elements x charge -2..2 x radical x multisets of <=3 bonds'))
+    st.append(Stage('exception-table environments', run_exception_rows, [(s,) for s in sorted(valence.LADDER_GROUP)],
+                    'every environment row of the exception tables of 15 main-group elements (up to 7 neighbours) x hydrogen deficit: ladder model, re-derivation, check_implicit'))
     st.append(Stage('whole molecules D(n,k)', run_small, [(k, 64, tier) for k in range(64)],
                     'D(<=%d,2) with 11 hetero elements, both construction paths' % (5 if tier == 'quick' else 6)))
     st.append(Stage('corpus vs RDKit', run_corpus, [(k, 32, tier) for k in range(32)], 'lipophilicity.csv stride %d: per-atom H vs RDKit (aromatic carbons as parsed, all atoms after kekule)' % (4 if tier == 'quick' else 1)))
